@@ -118,8 +118,13 @@ GroupClause(full) ==
   IF c.group = 0 \/ c.group \notin DOMAIN acc THEN ""
   ELSE IF acc[c.group] # full THEN "C05.SameAcceptedSetAcrossPaths" ELSE ""
 
+\* a call whose inside could not be observed (worker processes without return_all_logprobs, or pool tasks the harness cannot read)
+\* is judged from what it returned only
+Blind == ~c.observed /\ c.evald = <<>>
 OnReturnRejection(e) ==
-  IF Len(c.lls) > 0 /\ ~InScope(c.lls) THEN <<>>      \* no finite likelihood among the evaluated samples: outside C02's quantifier
+  IF Blind THEN (IF e.raised THEN <<"C02.AcceptedInputRaises">> ELSE IF e.type # "JokerSamples" THEN <<"C02.ReturnsSamples">>
+                 ELSE <<UnalteredClause(e), IF Len(e.rows) % c.nlinear # 0 THEN "C02.RowsInEvaluationOrderEachRepeatedNLinear" ELSE "">>)
+  ELSE IF Len(c.lls) > 0 /\ ~InScope(c.lls) THEN <<>>      \* no finite likelihood among the evaluated samples: outside C02's quantifier
   ELSE IF e.raised THEN <<"C02.AcceptedInputRaises">>
   ELSE IF e.type # "JokerSamples" THEN <<"C02.ReturnsSamples">>
   ELSE IF ~EvaldOK THEN <<"C02.EvaluatesFirstNPriorInOrder">>
@@ -145,6 +150,7 @@ OnReturnIterative(e) ==
      \* a library (or budget) too small for the first batch: the call must raise (it may not return anything)
      <<IF ~e.raised THEN "C14.TooSmallLibraryRaises" ELSE "">>
   ELSE IF ~e.raised /\ e.type # "JokerSamples" THEN <<"C14.ReturnsSamplesOrRaises">>
+  ELSE IF Blind THEN (IF e.raised THEN <<>> ELSE <<IF Len(e.rows) > c.nreq * c.nlinear THEN "C14.AtMostRequested" ELSE "", UnalteredClause(e)>>)
   ELSE IF e.raised THEN
      \* raising although at least n_requested evaluated samples passed the last test breaks "exactly that many whenever ..."
      <<IF c.nuni > 0 /\ Len(c.u) = Len(c.lls) /\ Len(LastGood) >= c.nreq /\ (\A p \in DOMAIN c.lls : IsFinite(c.lls[p]))
